@@ -67,6 +67,25 @@ impl CKBProtocolHandler for SyncProtocol {
         );
         match message {
             packed::SyncMessageUnionReader::SendBlock(reader) => {
+                // The message is parsed in the compatible mode, so the extra fields of the block
+                // are not verified yet: the only known extra field is the extension.
+                let is_block_well_formed = match reader.block().count_extra_fields() {
+                    0 => true,
+                    1 => packed::BlockV1Reader::verify(reader.block().as_slice(), false).is_ok(),
+                    _ => false,
+                };
+                if !is_block_well_formed {
+                    warn!(
+                        "SyncProtocol.received a block with malformed extra fields from Peer({})",
+                        peer
+                    );
+                    nc.ban_peer(
+                        peer,
+                        BAD_MESSAGE_BAN_TIME,
+                        String::from("send us a malformed message"),
+                    );
+                    return;
+                }
                 let new_block = reader.to_entity().block();
                 // Only the header of a matched block is proved, so the body should be checked
                 // with the commitments in the header before it is indexed.
